@@ -131,7 +131,7 @@ const ENV = {
   globals: {
     f0: { v: { k: 'counterfn', id: 'f0' }, log: false }, f1: { v: { k: 'fn', id: 'f1', ret: { k: 'vnode', id: 'vn1' } }, log: false }, f2: { v: { k: 'fn', id: 'f2', ret: { k: 'str', v: 'r2' } }, log: false },
     g0: { v: { k: 'str', v: 'G0' }, log: false }, g1: { v: { k: 'fn', id: 'g1' }, log: false }, g2: { v: { k: 'obj', v: { title: { k: 'str', v: 'T' } } }, log: false },
-    g9: { v: { k: 'fn', id: 'g9', ret: { k: 'str', v: 'r9' } }, log: false },
+    g9: { v: { k: 'fn', id: 'g9', ret: { k: 'str', v: 'r9' } }, log: false }, pragmaH: { v: { k: 'factory', id: 'pragma:pragmaH' }, log: false },
   },
   modules: { 'probe:C0': { default: { k: 'comp', id: 'C0' } } },
 };
@@ -194,7 +194,7 @@ export function* generate({ tier, seed }) {
       variants: optsList.map((o, i) => ({ vid: `v${i}`, options: { ...baseOpts, ...o } })),
     };
   };
-  const O = [{}, { optimize: true }, { enableObjectSlots: false }, { optimize: true, mergeProps: false }];
+  const O = [{}, { optimize: true }, { enableObjectSlots: false }, { optimize: true, mergeProps: false }, { pragma: 'pragmaH' }, { pragma: 'pragmaH', enableObjectSlots: false }];
   // 1. need x context, no siblings
   for (const need of needs) for (const ctx of (NEEDS[need].reassign ? ['fnBody'] : ctxs)) {
     const g = emit(need, ctx, 'none', 'none', [], 'module', tier === 'quick' ? [O[0], O[1]] : O); if (g) yield g;
